@@ -99,8 +99,11 @@ class PlacementLoop(object):
                 if K.is_meth(call, 'acquire_identity') and \
                         N.txt(K.recv(call)) == var:
                     ident = 'held' if val else 'clean'
-                elif self.places(call) and val:
-                    placed = 'Y'
+                elif self.places(call):
+                    if val:
+                        placed = 'Y'
+                    elif placed == 'N?':
+                        placed = 'N'
             else:
                 for call in K.calls(node.ast):
                     if K.is_meth(call, 'acquire_identity') and \
@@ -128,7 +131,11 @@ class PlacementLoop(object):
                         node.ast, ast.Assign) and len(
                             node.ast.targets) == 1 else None
                     if isinstance(tgt, ast.Name) and tgt.id in aliases:
-                        placed = '?' if placed != 'Y' else placed
+                        # outcome pending until the alias is tested
+                        if placed == 'N':
+                            placed = 'N?'
+                        elif placed != 'Y':
+                            placed = '?'
                     else:
                         # unconditional restore: trusted to succeed
                         placed = 'Y'
